@@ -38,6 +38,13 @@ package ctreeprop
 // Oracles: the recorded history (intervals from one counter; an operation that
 // ran alone inside its step is a snapshot) is judged by the history judge of
 // the other C10 parts and by the differential oracle (c10_diff_test.go).
+//
+// Profile visit-vs-multidelete: 3-10 leaves in several branches; a Query / Walk /
+// WalkSorted parks inside its k-th visitor call and a subtree / glob delete of
+// many leaves is started meanwhile. On a correct tree the delete waits for the
+// root lock the visit holds (state "blocked" above, its interval stays open until
+// the visit is released); a tree that lets it through makes the released visit
+// report part of what ONE delete removed (clause (2) of c10_rdatomic_test.go).
 
 import (
 	"encoding/json"
